@@ -2073,3 +2073,143 @@ func isErrorTest(cond ssa.Value) bool {
 	}
 	return (prog.IsNilConst(bo.Y) && isErrorType(bo.X.Type())) || (prog.IsNilConst(bo.X) && isErrorType(bo.Y.Type()))
 }
+
+func init() {
+	register(&Rule{ID: "ENC.map", Min: 3, Text: "map-shaped state is encoded entry for entry: in package converter every loop that ranges over a map and stores into another map under the same key (presences, version vectors, attribute maps) stores every entry — the store is not skipped under a condition on the entry that lets the loop simply continue (an entry whose value is empty is still an entry: a participant with empty presence is attached, and a replica built from a snapshot that leaves it out disagrees with the replicas that followed the change log); a condition whose other side returns an error is a validation, not a skip",
+		Run: func(x *Ctx) {
+			n := 0
+			for _, fn := range x.P.FuncsIn(convPkg) {
+				i := 0
+				for _, b := range fn.Blocks {
+					for _, ins := range b.Instrs {
+						rg, ok := ins.(*ssa.Range)
+						if !ok {
+							continue
+						}
+						if _, isMap := rg.X.Type().Underlying().(*types.Map); !isMap {
+							continue
+						}
+						fromIter := func(w ssa.Value) bool {
+							nx, isN := w.(*ssa.Next)
+							return isN && nx.Iter == ssa.Value(rg)
+						}
+						var head *ssa.BasicBlock
+						for _, r := range *rg.Referrers() {
+							if nx, isN := r.(*ssa.Next); isN {
+								head = nx.Block()
+							}
+						}
+						if head == nil {
+							continue
+						}
+						for _, b2 := range fn.Blocks {
+							for _, in2 := range b2.Instrs {
+								mu, isMU := in2.(*ssa.MapUpdate)
+								if !isMU || !prog.DependsOn(mu.Key, fromIter) {
+									continue
+								}
+								i++
+								n++
+								bad := ""
+								for _, ifi := range x.P.ControlDeps(mu.Block()) {
+									if ex, isE := prog.Strip(ifi.Cond).(*ssa.Extract); isE {
+										if nx, isN := ex.Tuple.(*ssa.Next); isN && nx.Iter == ssa.Value(rg) {
+											continue
+										}
+									}
+									if !prog.DependsOn(ifi.Cond, fromIter) {
+										continue
+									}
+									// the side that avoids the store: does it go round the loop (skip) or leave (validation)?
+									for _, sc := range ifi.Block().Succs {
+										if sc != head && (sc == mu.Block() || sc.Dominates(mu.Block())) {
+											continue
+										}
+										if sc == head || prog.ReachableFrom(sc, nil)[head] {
+											bad = x.P.InstrPos(ifi)
+										}
+									}
+								}
+								x.check(bad == "", fmt.Sprintf("func=%s map-copy#%d every-entry-stored", prog.FnName(fn), i), x.pos(mu), "every entry of the source map is stored", "an entry of the source map is skipped under a condition on the entry ("+bad+") and the loop continues: the encoded map has fewer entries than the model")
+							}
+						}
+					}
+				}
+			}
+			if n < 3 {
+				x.C.Vacuous(x.id()+" map copies", n, 3)
+			}
+		}})
+
+	register(&Rule{ID: "REC.copy", Min: 2, Text: "a record copied by hand is copied whole: in the storage backends, a composite literal of a database record type most of whose fields are filled from the same-named fields of another value of that type is a copy, and every field of the type is then either in the literal or stored into the copy later in the function — a field left out (HasExternalBody of a snapshot row) reads as its zero value for every caller and the row's body is silently ignored",
+		Run: func(x *Ctx) {
+			n := 0
+			for _, fn := range x.P.FuncsIn("server/backend/database/memory", mongoPkg, dbPkg) {
+				if fn.Name() == "DeepCopy" {
+					continue // decided by DC / DC.deep
+				}
+				i := 0
+				for _, b := range fn.Blocks {
+					for _, ins := range b.Instrs {
+						al, ok := ins.(*ssa.Alloc)
+						if !ok || al.Comment != "complit" {
+							continue
+						}
+						nt := namedOf(al.Type())
+						if nt == nil || nt.Obj().Pkg() == nil || !strings.HasSuffix(nt.Obj().Pkg().Path(), "/"+dbPkg) {
+							continue
+						}
+						st, isS := nt.Underlying().(*types.Struct)
+						if !isS || st.NumFields() < 4 {
+							continue
+						}
+						set := map[string]bool{}
+						copied := 0
+						for _, r := range *al.Referrers() {
+							fa, isFA := r.(*ssa.FieldAddr)
+							if !isFA {
+								continue
+							}
+							for _, rr := range *fa.Referrers() {
+								s2, isSt := rr.(*ssa.Store)
+								if !isSt || s2.Addr != ssa.Value(fa) {
+									continue
+								}
+								f := prog.FieldVar(fa)
+								set[f.Name()] = true
+								if lf := prog.LoadedField(s2.Val); lf != nil && lf.Name() == f.Name() && namedOf(prog.FieldBase(s2.Val).Type()) != nil && namedOf(prog.FieldBase(s2.Val).Type()).Obj() == nt.Obj() {
+									copied++
+								}
+							}
+						}
+						if copied < 3 || copied*2 < st.NumFields() {
+							continue
+						}
+						// stores made later through the pointer (x.Snapshot = …)
+						prog.DependsOn(al, func(w ssa.Value) bool { return false })
+						for _, b2 := range fn.Blocks {
+							for _, in2 := range b2.Instrs {
+								if s3, isSt := in2.(*ssa.Store); isSt {
+									if fa2, isFA := s3.Addr.(*ssa.FieldAddr); isFA && prog.Reaches(fa2.X, func(w ssa.Value) bool { return w == ssa.Value(al) }) {
+										set[prog.FieldVar(fa2).Name()] = true
+									}
+								}
+							}
+						}
+						i++
+						n++
+						var missing []string
+						for k := 0; k < st.NumFields(); k++ {
+							if !set[st.Field(k).Name()] {
+								missing = append(missing, st.Field(k).Name())
+							}
+						}
+						x.check(len(missing) == 0, fmt.Sprintf("func=%s copy-of=%s#%d all-fields", prog.FnName(fn), nt.Obj().Name(), i), x.pos(al), "every field of the record is carried over", fmt.Sprintf("the hand-written copy of a %s leaves out %v: callers read the zero value", nt.Obj().Name(), missing))
+					}
+				}
+			}
+			if n < 2 {
+				x.C.Vacuous(x.id()+" hand-written record copies", n, 2)
+			}
+		}})
+}
